@@ -321,3 +321,25 @@ def forward(P, R, src_prop, rules, dst_rule, why, skip_constructs=(), floor=1):
         from model import AnalysisError
         raise AnalysisError(f'{dst_rule}: only {n} obligations of {src_prop} {rules} to forward, expected at least {floor}')
     return n
+
+
+def returns_pass_through(P, R, rule, f, gate, what, why, allow=None):
+    """Every `return` of f is reached only through a statement for which gate(call) holds for some call in it (must-pass-through on the CFG).
+    `allow(ret)` may accept a bypass (e.g. an empty answer).  Reports each bypassing return."""
+    import cfg as cfgmod
+    C = cfgmod.build(f.node)
+    gates = []
+    for s in walk_own(f.node):
+        if isinstance(s, ast.stmt) and not isinstance(s, (ast.If, ast.For, ast.While, ast.With, ast.Try, ast.FunctionDef)):
+            if any(isinstance(c, ast.Call) and gate(c) for c in ast.walk(s)):
+                gates.append(s)
+    gn = [C.node(s) for s in gates if C.node(s) is not None]
+    n = 0
+    for ret in [s for s in walk_own(f.node) if isinstance(s, ast.Return)]:
+        n += 1
+        ok = bool(gn) and C.every_path_passes(C.ENTRY, C.node(ret), gn)
+        if not ok and allow is not None and allow(ret):
+            ok = True
+        R.check(ok, rule, f, ret, f'every path to this return of {f.qualname} passes through {what}',
+                f'`{norm(ret)}` in {f.qualname} is reached without {what}: {why}', construct=f'{f.qualname}: {norm(ret)[:60]} after {what}')
+    return n
